@@ -6,6 +6,7 @@ import (
 	"go/constant"
 	"go/token"
 	"go/types"
+	"os"
 	"sort"
 	"strings"
 
@@ -49,6 +50,11 @@ func c03(c *Ctx) {
 	c03Helpers(p, r)
 	c03Arms(p, r, encode)
 	c03Overflow(p, r, encode)
+	r.Floor("C03.R9", 3)
+	c03TargetOffsets(p, r)
+	c03MeasuredReads(p, r)
+	c03PrefixFromZero(p, r)
+	c03TailKept(p, r, encode)
 	// ---- R4 widening table
 	widen := c03Table(p, r)
 	// ---- R1 relocation loop: function that appends the result of a call reaching the re-encoder
@@ -111,6 +117,56 @@ func c03(c *Ctx) {
 		if canGrow {
 			r.Check(dep, "C03.R1", "address correction tracks the output cursor in "+shortName(loopFn), p.Pos(posOf(fixCall)), "an argument of "+shortName(fixer)+" depends on len(output so far)",
 				"the per-instruction fixer receives the same origin/trampoline bases for every instruction although widened branches make the output longer than the input: every PC-relative instruction after a widened short branch is relocated off by the growth (e.g. `cmp;jbe;push;mov;call` — the call lands 4 bytes beside its target)")
+			// and exactly: (new-location argument) − (origin argument) = trampoline − origin + len(output so far) − input position,
+			// every term once
+			var uptrs []*ssa.Parameter
+			for _, pr := range loopFn.Params {
+				if isUintptr(pr.Type()) {
+					uptrs = append(uptrs, pr)
+				}
+			}
+			if len(uptrs) >= 2 {
+				k := NewKeyer(loopFn)
+				diff := map[string]int64{}
+				var konst int64
+				for _, a := range fixCall.Call.Args {
+					if !isIntegerType(a.Type()) {
+						continue
+					}
+					form := map[string]int64{}
+					var kc int64
+					linForm(k, a, 1, form, &kc, 0)
+					sign := int64(0)
+					switch {
+					case form[k.Key(uptrs[1])] != 0 && form[k.Key(uptrs[0])] == 0:
+						sign = 1
+					case form[k.Key(uptrs[0])] != 0 && form[k.Key(uptrs[1])] == 0:
+						sign = -1
+					}
+					for key, c := range form {
+						diff[key] += sign * c
+					}
+					konst += sign * kc
+				}
+				okExact := konst == 0 && diff[k.Key(uptrs[1])] == 1 && diff[k.Key(uptrs[0])] == -1
+				nLen, nPos := int64(0), int64(0)
+				for key, c := range diff {
+					if c == 0 || key == k.Key(uptrs[0]) || key == k.Key(uptrs[1]) {
+						continue
+					}
+					if strings.HasPrefix(key, "len(") {
+						nLen += c
+					} else {
+						nPos += c
+					}
+				}
+				if os.Getenv("GOOMVET_DEBUG") != "" {
+					fmt.Println("C03.R1 diff", diff, konst)
+				}
+				okExact = okExact && nLen == 1 && nPos == -1
+				r.Check(okExact, "C03.R1", "correction counts the growth once and with the right sign in "+shortName(loopFn), p.Pos(posOf(fixCall)), "new location − origin = trampoline − origin + len(output) − input position",
+					"the growth of the output over the input enters the address correction with the wrong sign or weight: every PC-relative instruction after a widened short branch is relocated off by twice the growth")
+			}
 		} else {
 			r.OK("C03.R1", "address correction tracks the output cursor in "+shortName(loopFn), p.Pos(posOf(fixCall)), "re-encoder never grows instructions")
 		}
